@@ -69,8 +69,8 @@ Clauses(r) ==
   \cup (IF \E i \in 1..Len(r.rows) : SxInPolytope(X, r.rows[i], r.cfg.fluxes) = "no" THEN {"rows_feasible"} ELSE {})
   \cup (IF r.digest # r.digest2 \/ r.outcome2 # "ok" THEN {"same_seed_same_samples"} ELSE {})
   \cup (IF Len(r.codes) # Len(r.rows) \/
-           \E i \in 1..MinOf(Len(r.codes), Len(r.rows)) :
-               ~SxCodeWellFormed(r.codes[i]) \/ ~SxValidateAgrees(r.codes[i], SxInPolytope(X, r.rows[i], r.cfg.fluxes))
+           \E i \in 1..MinOf(Len(r.codes), Len(r.rows)) : Asked(r.codes[i]) /\
+               (~SxCodeWellFormed(r.codes[i]) \/ ~SxValidateAgrees(r.codes[i], SxInPolytope(X, r.rows[i], r.cfg.fluxes)))
         THEN {"validate_agrees_on_samples"} ELSE {})
   \cup (IF FluxProbeBad(r) # {} THEN {"validate_agrees_on_flux_probes"} ELSE {})
   \cup (IF ~FluxProbeLetters(r) THEN {"validate_letters_on_flux_probes"} ELSE {})
